@@ -62,8 +62,71 @@ def _chain(e):
   return names
 
 
+class _FlakySource:
+  """Input batches of which some cannot be read: next() raises for them and goes on with the following one."""
+
+  def __init__(self, batches, bad_idx, wrap=None):
+    self.batches, self.bad_idx, self.wrap = batches, set(bad_idx), wrap
+
+  def __iter__(self):
+    return _FlakyIter(self)
+
+
+class _FlakyIter:
+  def __init__(self, src):
+    self.src, self.i = src, 0
+
+  def __iter__(self):
+    return self
+
+  def __next__(self):
+    i = self.i
+    if i >= len(self.src.batches):
+      raise StopIteration
+    self.i += 1
+    if i + 1 in self.src.bad_idx:
+      raise BadRow(f'input batch {i + 1} cannot be read')
+    x = list(self.src.batches[i])
+    return {'x': x} if self.src.wrap else x
+
+
+def replay_skipbatch_source(chk, h):
+  """SkipBatch.tla with an unreadable input batch (sbad): with skipping on, its rows and the rows of failing calls are
+  lost, nothing else, whatever the re-batching options."""
+  from ml_metrics._src.chainables import transform
+  n, s, k, b, bad = h['n'], h['s'], h['k'], h['b'], set(h['bad'])
+  opts = {}
+  if k:
+    opts['fn_batch_size'] = k
+  if b:
+    opts['batch_size'] = b
+  cfg = f'n={n} in-batch={s} fn_batch_size={k} batch_size={b} bad rows={sorted(bad)} unreadable input batches={sorted(h["src_bad"])}'
+  want_rows = list(h['skip_rows'])
+  for kind in ('apply', 'assign'):
+    if kind == 'assign' and ((k not in (0, s)) or (b not in (0, s))):
+      continue
+    ctx = dict(kind='skipbatch', history=h, operator=kind)
+    src = _FlakySource([list(x) for x in h['all_in']], h['src_bad'], wrap=(kind == 'assign'))
+    base = transform.TreeTransform.new().data_source(src)
+    p = base.apply(fn=_mk_fn(bad), **opts) if kind == 'apply' else base.assign('y', fn=_mk_fn(bad), input_keys='x', **opts)
+    out, err = _run(p, None, True, source=True)
+    if err is not None:
+      chk.violation(f'skip:{kind}:raised:{type(err).__name__}:unreadable-input', f'[{cfg}] error skipping is on but iteration raised {_chain(err)}', ctx)
+      continue
+    got_rows = [v - 100 for batch in out for v in batch] if kind == 'apply' else [v for rec in out for v in rec['x']]
+    if got_rows != want_rows:
+      lost = [r for r in want_rows if r not in got_rows]
+      what = 'lost' if lost else 'order-or-extra'
+      chk.violation(f'skip:{kind}:{what}:unreadable-input' + (':rebatch' if (k or b) else ''),
+                    f'[{cfg}] rows delivered {got_rows}, expected {want_rows} (lost {lost})', ctx)
+    elif kind == 'apply' and [[v - 100 for v in batch] for batch in out] != [list(x) for x in h['skip_out']]:
+      chk.violation('skip:apply:batch-shapes:unreadable-input', f'[{cfg}] batches {out}, reference {h["skip_out"]}', ctx)
+
+
 def replay_skipbatch(chk, h):
   from ml_metrics._src.chainables import transform
+  if h.get('src_bad'):
+    return replay_skipbatch_source(chk, h)
   n, s, k, b, bad = h['n'], h['s'], h['k'], h['b'], set(h['bad'])
   in_batches = [list(x) for x in h['in_batches']]
   opts = {}
@@ -334,12 +397,15 @@ def body(chk):
     chk.machinery_failure(f'SkipBatch export failed: {gen.error_kind} {gen.error_name}')
   seen, hs = set(), []
   for h in gen.histories:
-    key = (h['n'], h['s'], h['k'], h['b'], tuple(sorted(h['bad'])))
+    key = (h['n'], h['s'], h['k'], h['b'], tuple(sorted(h['bad'])), tuple(sorted(h.get('src_bad') or ())))
     if key not in seen:
       seen.add(key)
       hs.append(h)
-  if len(hs) > 1200 and not thorough:
-    hs = rnd.sample(hs, 1200)
+  if not thorough:
+    readable = [h for h in hs if not h.get('src_bad')]
+    unreadable = [h for h in hs if h.get('src_bad')]
+    hs = rnd.sample(readable, min(len(readable), 1200)) + rnd.sample(unreadable, min(len(unreadable), 500))
+  chk.count('skipbatch_configs_unreadable_input', sum(1 for h in hs if h.get('src_bad')))
   for h in hs:
     replay_skipbatch(chk, h)
     chk.replayed()
